@@ -415,11 +415,22 @@ def c07_8(ctx, r):
                             "run options")
                     if opt == "--num-parallel-processes-per-node":
                         r.check("{<SubmitterParams.num_parallel_processes_per_node>}" in render(ctx, crs, n.ast.value), "the value emitted is the group's processes-per-node", key_of(crs, "value"), crs.loc(n.ast), f"emits {t}")
-    ds = [n for n in cfg.nodes if n.kind == "stmt" and isinstance(n.ast, ast.Assign) and ctx.src(n.ast.targets[0]) == "dsub"]
-    for n in ds:
-        forms = guard_forms(ctx, crs, n)
-        want = ("<SubmitterParams.distributed_submitter>", ctx.src(n.ast.value).strip("'\"") == "--distributed-submitter")
-        r.check(want in forms, f"{ctx.src(n.ast.value)} matches the group's distributed_submitter", key_of(crs, f"dsub {ctx.src(n.ast.value)}"), crs.loc(n.ast), f"{ctx.src(n.ast.value)} chosen under {sorted(('' if p else 'not ') + f for f, p in forms)}")
+    # --distributed-submitter / --no-distributed-submitter: the reader's option defaults to *on*, so the writer must say "off" explicitly.
+    # Both literals occur, each under the matching polarity of the group's distributed_submitter (role: the statement holding the literal).
+    seen_flag = {}
+    for n in cfg.nodes:
+        if n.kind != "stmt" or not isinstance(n.ast, (ast.Assign, ast.AugAssign, ast.Expr)):
+            continue
+        for c in ast.walk(n.ast):
+            if isinstance(c, ast.Constant) and isinstance(c.value, str) and "-distributed-submitter" in c.value:
+                neg = "--no-distributed-submitter" in c.value
+                forms = guard_forms(ctx, crs, n)
+                seen_flag[neg] = True
+                r.check(("<SubmitterParams.distributed_submitter>", not neg) in forms, f"{c.value.strip()} matches the group's distributed_submitter", key_of(crs, f"flag {c.value.strip()}"), crs.loc(n.ast),
+                        f"{c.value.strip()} chosen under {sorted(('' if p else 'not ') + f for f, p in forms)}", "submitted with that group's ... run options")
+    r.check(seen_flag.get(True, False) and seen_flag.get(False, False), "the run script states the distributed-submitter choice in both polarities", key_of(crs, "distributed-submitter flag omitted for one polarity"), crs.loc(crs.node),
+            f"the run script writes {'--no-distributed-submitter' if seen_flag.get(True) else '--distributed-submitter' if seen_flag.get(False) else 'neither flag'} only: `jade-internal run-jobs` defaults the option to on, so a "
+            "group that disabled it runs its batches with it enabled - its nodes call try-submit-jobs and submit further batches", "the batch is submitted with that group's HPC parameters and run options")
     # reader side: batch id is parsed from the config file name the writer produced
     okre = any(isinstance(n, ast.Constant) and n.value == "batch_(\\d+)\\.json" for n in iter_own(cli.node))
     mk = ctx.fn(f"{HS}._make_async_submitter", "C07.8")
@@ -549,3 +560,40 @@ def c07_12(ctx, r):
     r.check(ok, "an exit of make_submitter_params is guarded by exactly {local mode, dry_run}", key_of(fn, "local dry run refused"), fn.loc(fn.node),
             "no exit of make_submitter_params is guarded by exactly `local and dry_run` (or the equivalent `hpc_type == HpcType.LOCAL and dry_run`): `submit-jobs --local --dry-run` goes on to the "
             "local branch of submit_jobs, which has no dry-run form and starts every job", "With dry-run enabled ... nothing is handed to the HPC and no job is started")
+
+
+@rule(P, "C07.13", "T14", "batch construction stops as soon as the batch is full - in every pass of the multi-pass scan", min_obligations=2)
+def c07_13(ctx, r):
+    """Count-based try_append never refuses a job: the size limit is enforced by *leaving the loops* once is_ready_to_submit is seen.  The scan
+    is two-level (passes x candidates, for try-add-blocked); the inner break sets a flag and the outer loop must break on that flag alone.
+    A further condition on the outer break (`and not blocked_jobs...`) lets later passes keep appending to a batch that is already full."""
+    mb = ctx.fn("HpcSubmitter._make_batch", "C07.13")
+    cfg = ctx.cfg(mb)
+    outer = [lp for lp in iter_own(mb.node) if isinstance(lp, ast.For) and any(isinstance(x, ast.For) and x is not lp for x in ast.walk(lp))]
+    if len(outer) != 1:
+        raise AnalysisError("C07.13", f"{len(outer)} two-level loops in _make_batch")
+    inner = [x for x in outer[0].body if isinstance(x, ast.For)]
+    if len(inner) != 1:
+        raise AnalysisError("C07.13", "the candidate scan is not a direct child of the pass loop")
+    # inner: the break that follows the ready test sets FLAG
+    flag = None
+    for n in cfg.nodes:
+        if n.kind == "stmt" and isinstance(n.ast, ast.Break) and any(l is inner[0] for l in ctx.enclosing(mb, n.ast, (ast.For,))[:1]):
+            blk = ctx.parents(mb).get(id(n.ast))
+            if isinstance(blk, ast.If) and "is_ready_to_submit" in ctx.src(blk.test) and n.ast in blk.body:
+                sets = [x for x in getattr(blk, "body", []) if isinstance(x, ast.Assign) and isinstance(x.value, ast.Constant) and x.value.value is True and isinstance(x.targets[0], ast.Name)]
+                flag = sets[0].targets[0].id if sets else None
+    r.check(flag is not None, "the inner break on a full batch records it in a flag", key_of(mb, "full-batch flag"), mb.loc(inner[0]), "the scan no longer records that it stopped because the batch is full")
+    if flag is None:
+        return
+    obr = [n for n in cfg.nodes if n.kind == "stmt" and isinstance(n.ast, ast.Break) and (ctx.enclosing(mb, n.ast, (ast.For,)) or [None])[0] is outer[0]]
+    ok = False
+    detail = []
+    for n in obr:
+        forms = {(f, p) for f, p in guard_forms(ctx, mb, n)}
+        detail.append(sorted(("" if p else "not ") + f for f, p in forms))
+        if forms == {(flag, True)}:
+            ok = True
+    r.check(ok, "the pass loop breaks on the full-batch flag alone", key_of(mb, "pass loop continues with a full batch"), mb.loc(outer[0]),
+            f"the pass loop of _make_batch is left under {detail} - not under `{flag}` alone: once the batch has reached its size the next pass goes on appending (count-based try_append never refuses), so the batch "
+            "exceeds per-node-batch-size", "at most per-node-batch-size jobs")
